@@ -25,9 +25,9 @@ def run(ctx):
             ctx.analysed_fns.add(fid)
             ncas += len(sync.cas_sites(fn))
             nat += len(sync.atomic_sites(fn))
-            npop += sync.aba(ctx, fn)
+            npop += sync.aba(ctx, fn, fx=fx)
             natom += sync.check_then_act(ctx, fn)
-    npush = sync.aba_push_tags(ctx, fns)
+    npush = sync.aba_push_tags(ctx, fns, fx=fx)
     sync.load_modify_store(ctx, fns)
     ctx.instance("R-ABA.cas_sites", ncas)
     ctx.instance("R-ABA.cas_pops", npop)
